@@ -354,6 +354,11 @@ func (s *authzServer) validateIssuer(vContext *validationContext) error {
 	metadata := &resolver.ResolveMetadata{
 		ResolveTime: &validationTime,
 	}
+	// The signing key must be a key of the issuer: the kid is a DID URL of the issuer's DID. Without this check any party
+	// with a resolvable key could sign a grant in the name of another requester.
+	if kidDID, err := did.ParseDIDURL(vContext.kid); err != nil || kidDID.DID.String() != vContext.requester.String() {
+		return fmt.Errorf(errInvalidIssuerKeyFmt, errors.New("kid is not a key of the issuer"))
+	}
 	if _, err := s.keyResolver.ResolveKeyByID(vContext.kid, metadata, resolver.NutsSigningKeyType); err != nil {
 		return fmt.Errorf(errInvalidIssuerKeyFmt, err)
 	}
